@@ -231,8 +231,20 @@ ShellCommand::processDependencyInfoDiscoveredDependencies(BuildSystem& system,
       system.getDelegate().commandFoundDiscoveredDependency(command, path, DiscoveredDependencyKind::Output);
     }
     virtual void actOnInput(StringRef path) override {
-      ti.discoveredDependency(BuildKey::makeNode(path).toData());
-      system.getDelegate().commandFoundDiscoveredDependency(command, path, DiscoveredDependencyKind::Input);
+      if (llvm::sys::path::is_absolute(path)) {
+        ti.discoveredDependency(BuildKey::makeNode(path).toData());
+        system.getDelegate().commandFoundDiscoveredDependency(command, path, DiscoveredDependencyKind::Input);
+        return;
+      }
+
+      // Relative paths are resolved like those of Makefile-style dependency
+      // files: against the working directory of the command.
+      SmallString<PATH_MAX> absPath = StringRef(command->workingDirectory);
+      llvm::sys::path::append(absPath, path);
+      llvm::sys::fs::make_absolute(absPath);
+
+      ti.discoveredDependency(BuildKey::makeNode(absPath).toData());
+      system.getDelegate().commandFoundDiscoveredDependency(command, absPath, DiscoveredDependencyKind::Input);
     }
   };
 
